@@ -258,7 +258,7 @@ def structured_transforms(rng, n):
     for r, c in enumerate(perm[:k]):
         sel[r, c] = 2.0 if r % 2 else 1.0
     out.append(("scaled selection", sel))
-    return out
+    return out + near_identity_transforms(rng, n)
 
 
 # ---- shells that declare their Cartesian components in another order (what IODataShell does for Molden / Gaussian conventions) ----
@@ -348,3 +348,202 @@ def degenerate_pair(rng, la, lb, d, nprim=None):
     ca = [0.0, 0.0, 0.0] if rng.random() < 0.5 else [0.5, -0.25, 1.0]
     return sa.copy(center=ca), sb.copy(center=[a + x for a, x in zip(ca, d)])
 
+
+
+# ---- the very same shell object listed more than once (basis + [basis[0]], the union of two bases that share a shell) ----------
+def repeated_object_family(rng, kinds=("spherical", "cartesian", "mixed"), lmax=2):
+    """(label, specs): bases in which one shell object occurs twice, not adjacent; every coordinate-type pattern"""
+    out = []
+    for kind in kinds:
+        cs = []
+        ls = [rng.randint(1, lmax), rng.randint(0, lmax), rng.randint(0, 1)]
+        specs = []
+        for k, l in enumerate(ls):
+            sph = {"spherical": True, "cartesian": False, "mixed": k % 2 == 0}[kind]
+            specs.append(rand_shell(rng, l, cs, nprim=rng.randint(1, 2), nseg=1 + (k == 0), sph=sph, exp_hi=10.0).copy(via_update=False))
+        specs[0] = specs[0].copy(obj="twice")
+        specs.append(specs[0].copy())
+        out.append((kind, specs))
+    return out
+
+
+# ---- two different shells of the same angular momentum and the same number (>= 2) of segmented contractions on one centre -----
+def same_centre_twins(rng, l, nseg=2, sph=None):
+    """e.g. the valence and the polarisation set of a general-contraction basis: same centre, same l, same M, different primitives;
+    the block between them is not symmetric in (segment, segment')"""
+    c = [core.snap(rng.uniform(-1, 1), 8) for _ in range(3)]
+    a = rand_shell(rng, l, [], nprim=nseg + 1, nseg=nseg, sph=sph, exp_hi=min(core.exp_cap(l), 30.0)).copy(center=c, via_update=False)
+    b = rand_shell(rng, l, [], nprim=nseg, nseg=nseg, sph=a.sph if sph is None else sph, exp_hi=min(core.exp_cap(l), 30.0)).copy(center=c, via_update=False)
+    return [a, b]
+
+
+# ---- transformation matrices that are nearly, but not exactly, trivial ---------------------------------------------------------
+def near_identity_transforms(rng, n):
+    """(label, matrix): identity with relative perturbations of 1e-6 on the diagonal, identity plus 1e-9 off the diagonal, a
+    permutation matrix with one entry off by 2e-6"""
+    d = np.diag([1.0 + rng.choice([-1, 1]) * rng.uniform(2e-6, 9e-6) for _ in range(n)])
+    o = np.eye(n)
+    for i in range(n):
+        for j in range(n):
+            if i != j:
+                o[i, j] = rng.choice([-1, 1]) * rng.uniform(1e-9, 9e-9)
+    o[0, 0] = 1.0 + 4e-6
+    perm = list(range(n))
+    rng.shuffle(perm)
+    p = np.zeros((n, n))
+    for r, c in enumerate(perm):
+        p[r, c] = 1.0
+    p[0, perm[0]] = 1.0 - 2e-6
+    return [("near-identity diagonal", d), ("near-identity dense", o), ("near-permutation", p)]
+
+
+# ---- generalized shells whose columns differ by many orders of magnitude and own primitives the other column does not use ------
+def extreme_column_shell(rng, l, factors=(1e6, 1e-6), sph=False):
+    """(scaled shell, unscaled shell): two columns; primitive 0 belongs to column 0 only, the last primitive to column 1 only; the
+    columns are multiplied by `factors` (every column is renormalised separately, so both descriptions give the same functions
+    up to the signs of the factors)"""
+    exps = []
+    while len(exps) < 4:
+        e = core.rand_exp(rng, 0.05, min(core.exp_cap(l), 20.0))
+        if all(abs(e - x) > 0.05 * x for x in exps):
+            exps.append(e)
+    exps.sort(reverse=True)
+    co = np.array([[core.rand_coeff(rng), 0.0], [core.rand_coeff(rng), core.rand_coeff(rng)], [core.rand_coeff(rng), core.rand_coeff(rng)],
+                   [0.0, core.rand_coeff(rng)]])
+    c = [core.snap(rng.uniform(-1, 1), 8) for _ in range(3)]
+    plain = ShellSpec(l, c, exps, co, sph=sph)
+    return plain.copy(coeffs=co * np.array(factors)[None, :]), plain
+
+
+# ---- symmetric matrices that are symmetric only up to rounding (obtained by transforming back and forth) ------------------------
+def rounding_noise_symmetric(rng, n, diagonal=True):
+    """(noisy, exact): `exact` is symmetric with many exact zeros (diagonal, or block diagonal); `noisy` = Q^T (Q exact Q^T) Q for a
+    random orthogonal Q, equal to `exact` up to ~1e-16 with unequal noise in (a,b) and (b,a)"""
+    if diagonal:
+        exact = np.diag([core.snap(rng.uniform(0.2, 2.0), 8) for _ in range(n)])
+    else:
+        exact = random_symmetric(rng, n)
+        exact[: n // 2, n // 2:] = 0.0
+        exact[n // 2:, : n // 2] = 0.0
+    q, _ = np.linalg.qr(np.array([[rng.gauss(0, 1) for _ in range(n)] for _ in range(n)]))
+    mo = q @ exact @ q.T
+    mo = (mo + mo.T) / 2
+    noisy = q.T @ mo @ q
+    return noisy, exact
+
+
+def repeated_exponent_shell(rng, l, sph=False, nseg=1):
+    """a contraction that lists the same exponent twice with different coefficients (what splitting a primitive, or merging two
+    tabulated sets, gives): it denotes the primitive with the summed coefficient"""
+    e1 = core.rand_exp(rng, 0.5, min(core.exp_cap(l), 10.0))
+    e2 = core.rand_exp(rng, 0.05, 0.4)
+    co = np.array([[core.rand_coeff(rng) for _ in range(nseg)] for _ in range(3)])
+    co[1] = -0.4 * co[0] + 0.05
+    c = [core.snap(rng.uniform(-1, 1), 8) for _ in range(3)]
+    return ShellSpec(l, c, [e1, e1, e2], co, sph=sph)
+
+
+def structural_families(run, transforms=True, lmax_twins=3, lmax_obj=2, ls_extreme=None, small=False):
+    """(label, specs, transform | None): bases with special *structure* (not special numbers) that every array-valued function must
+    treat like any other basis: a shell object listed twice, twin shells (same centre, l and number of segments), generalized shells
+    with columns of very different magnitude, a repeated exponent inside a contraction, nearly trivial transformation matrices"""
+    rng = run.rng
+    quick = run.tier == "quick"
+    out = []
+    for kind, specs in repeated_object_family(rng, lmax=lmax_obj):
+        if small:
+            specs = [s_.copy(coeffs=s_.coeffs[:, :1].copy()) for s_ in specs[:2]] + [specs[-1].copy(coeffs=specs[-1].coeffs[:, :1].copy())]
+        out.append(("same shell object listed twice (%s)" % kind, specs, None))
+    for k, l in enumerate(range(lmax_twins + 1)):
+        for nseg in ((2 + k % 2,) if quick else (2, 3)):
+            if small and nseg > 2:
+                continue
+            for sph in ((bool(k % 2),) if quick else (False, True)):
+                out.append(("twin shells: same centre, l, number of segments", same_centre_twins(rng, l, 2 if small else nseg, sph), None))
+    if ls_extreme is None:
+        ls_extreme = (0, 1, 2) if quick else (0, 1, 2, 3)
+    for k, l in enumerate(ls_extreme):
+        for f in (((1e6, 1e-6),) if quick else ((1e6, 1e-6), (-1e-6, 1e6), (1e6, 1.0))):
+            scaled, _ = extreme_column_shell(rng, l, f, sph=bool(k % 2))
+            other = rand_shell(rng, (l + 1) % (2 if small else 3), [], nprim=2, nseg=1, exp_hi=10.0)
+            out.append(("generalized shell with columns scaled by %g, %g" % f, [scaled, other], None))
+        out.append(("contraction with a repeated exponent",
+                     [repeated_exponent_shell(rng, l, sph=bool((k + 1) % 2), nseg=1 + k % 2),
+                      rand_shell(rng, (l + 1) % (2 if small else 3), [], nprim=2, nseg=1, exp_hi=10.0)], None))
+    if transforms:
+        specs = random_basis(rng, 2, 2, lmax=1 if quick else 2, exp_hi=10.0)
+        n = sum(s.size for s in specs)
+        for lab, t in near_identity_transforms(rng, n):
+            out.append(("transform " + lab, specs, t))
+    return out
+
+
+# ---- from_iodata: a duck-typed IOData object (the wrapper only looks at the class name and at attributes) ------------------------
+def install_iodata_standin():
+    """`from_iodata` imports iodata.convert.convert_to_segmented; when the package is absent a trivial stand-in (the bases built
+    here are already segmented) is registered.  Returns True when the stand-in (not the real package) is in use."""
+    import sys
+    import types
+    try:
+        import iodata.convert  # noqa: F401
+        return False
+    except Exception:
+        pkg, conv = types.ModuleType("iodata"), types.ModuleType("iodata.convert")
+        conv.convert_to_segmented = lambda obasis: obasis
+        pkg.convert = conv
+        sys.modules["iodata"], sys.modules["iodata.convert"] = pkg, conv
+        return True
+
+
+def iodata_molecule(rng, lmax=3, nshell=None):
+    """(mol, specs): an object that `from_iodata` accepts — segmented shells of l <= lmax of both kinds on 2-3 atoms, with declared
+    conventions: a random order of the Cartesian components for every l, a random order *and random signs* ('-c3' as in Molden
+    files written by ORCA) of the pure functions — and the equivalent ShellSpecs (contractions not renormalised, as IODataShell)"""
+    letters = "xyz"
+    conv = {}
+    cart_of, sph_of = {}, {}
+    for l in range(lmax + 1):
+        comps = [(x, y, l - x - y) for x in range(l, -1, -1) for y in range(l - x, -1, -1)]
+        rng.shuffle(comps)
+        cart_of[l] = comps
+        conv[(l, "c")] = ["".join(letters[i] * c[i] for i in range(3)) or "1" for c in comps]
+        if l >= 2:
+            labs = [f"c{m}" for m in range(l + 1)] + [f"s{m}" for m in range(1, l + 1)]
+            rng.shuffle(labs)
+            labs = [(rng.choice(["", "-"]) if m_ >= 1 else "") + lab for m_, lab in enumerate(labs)]
+            sph_of[l] = labs
+            conv[(l, "p")] = labs
+    natom = rng.randint(2, 3)
+    atcoords = np.array([[core.snap(rng.uniform(-1.5, 1.5), 8) for _ in range(3)] for _ in range(natom)])
+
+    class Shell:
+        pass
+
+    shells, specs = [], []
+    for k in range(nshell or rng.randint(2, 4)):
+        l = rng.randint(0, lmax)
+        kind = "p" if (l >= 2 and rng.random() < 0.6) else "c"
+        ic = rng.randrange(natom)
+        npr = rng.randint(1, 3)
+        exps = []
+        while len(exps) < npr:
+            e = core.rand_exp(rng, 0.1, 10.0)
+            if all(abs(e - x) > 0.05 * x for x in exps):
+                exps.append(e)
+        co = np.array([[core.rand_coeff(rng)] for _ in range(npr)])
+        sh = Shell()
+        sh.icenter, sh.angmoms, sh.kinds = ic, np.array([l]), [kind]
+        sh.exponents, sh.coeffs, sh.ncon = np.array(exps), co.copy(), 1
+        shells.append(sh)
+        specs.append(ShellSpec(l, list(atcoords[ic]), exps, co, sph=(kind == "p"), cart=[list(c) for c in cart_of[l]],
+                               sphord=list(sph_of[l]) if l in sph_of else None, unit_norm=False, icenter=ic))
+
+    class Basis:
+        pass
+
+    ob = Basis()
+    ob.shells, ob.conventions, ob.primitive_normalization = shells, conv, "L2"
+    IOData = type("IOData", (), {})
+    mol = IOData()
+    mol.obasis, mol.atcoords = ob, atcoords
+    return mol, specs
